@@ -212,7 +212,7 @@ class World:
 
     # ---- oracle pieces
     def check_raw(self, where, tolerate_locked=True, alt=None, path=None, image=False):
-        """Independent connection: the table must hold exactly the committed multiset (or `alt`)."""
+        """Independent connection: the table must hold exactly the committed distinct rows (or those of `alt`)."""
         if image:
             r = self.obs().call({"op": "image", "dst": os.path.join(self.dir, "image.sqlite3")})
         else:
@@ -226,20 +226,22 @@ class World:
                 return "model"
             self.viol("C09.atomic", None, {"where": where}, "independent read failed: " + r["err"])
             return None
-        got = collections.Counter(tuple(x) for x in r["rows"])
+        # The property speaks of DISTINCT rows ("d counts the distinct such rows ever committed"): how many physical copies of a row
+        # the table holds is not part of it (a store may de-duplicate identical rows on write), so sets are compared, not multisets.
+        got = {tuple(x) for x in r["rows"]}
         if r["integrity"] != [["ok"]]:
             self.viol("C09.atomic", None, {"where": where}, "integrity_check: %r" % (r["integrity"],))
-        self.compared_rows += sum(got.values())
-        if got == self.model:
+        self.compared_rows += len(r["rows"])
+        if got == set(self.model):
             return "model"
-        if alt is not None and got == alt:
+        if alt is not None and got == set(alt):
             return "alt"
-        missing = self.model - got
-        extra = got - self.model
+        missing = set(self.model) - got
+        extra = got - set(self.model)
         clause = "C09.durable" if where.startswith(("reopen", "restart", "final")) else "C09.atomic"
-        self.viol(clause, None, {"where": where, "missing": sum(missing.values()), "extra": sum(extra.values())},
-                  "table content differs from the reference model at %s: %d committed rows missing, %d unexpected rows (partial batch?) e.g. %r" % (
-                      where, sum(missing.values()), sum(extra.values()), (list(extra) or list(missing))[:1]))
+        self.viol(clause, None, {"where": where, "missing": len(missing), "extra": len(extra)},
+                  "table content differs from the reference model at %s: %d committed distinct rows missing, %d unexpected distinct rows (partial batch?) e.g. %r" % (
+                      where, len(missing), len(extra), (list(extra) or list(missing))[:1]))
         return None
 
     def check_filter(self, op, rows, where):
